@@ -217,6 +217,8 @@ class PathEval:
     def _expr(self, e, env, cond) -> List[Tuple[tuple, Poly]]:
         if isinstance(e, ast.Constant) and isinstance(e.value, (int, float)) and not isinstance(e.value, bool):
             return [(cond, const(Fraction(str(e.value))))]
+        if isinstance(e, ast.Constant) and (e.value is None or isinstance(e.value, (bool, str))):
+            return [(cond, atom(repr(e.value)))]      # not a number: an opaque value (a "not decided yet" marker)
         if isinstance(e, ast.Name):
             if e.id in env:
                 return [(cond, env[e.id])]
